@@ -71,9 +71,9 @@ impl AncillaryFilesManifest {
 
     //@extract file=internal/cardano-node/mithril-cardano-node-internal-database/src/entities/ancillary_files_manifest.rs fn=compute_hash within="impl AncillaryFilesManifest"
     //@ rewrite /-> Vec<u8>/ => /-> ManifestHash/
-    //@ rewrite /for \(key, value\) in &self\.signable_manifest\.data \{/ => /for verif_e in it: self.signable_manifest.data.iter() { let (key, value) = (&verif_e.0, &verif_e.1);/
-    //@ rewrite /hasher\.update\(key\.to_string_lossy\(\)\.as_bytes\(\)\);/ => /hasher.update_path(key);/
-    //@ rewrite /hasher\.update\(value\.as_bytes\(\)\);/ => /hasher.update_str(value);/
+    //@ rewrite /for \((\w+), (\w+)\) in &self\.signable_manifest\.data \{/ => /for verif_e in it: self.signable_manifest.data.iter() { let (\1, \2) = (&verif_e.0, &verif_e.1);/
+    //@ rewrite /hasher\.update\((\w+)\.to_string_lossy\(\)\.as_bytes\(\)\);/ => /hasher.update_path(\1);/
+    //@ rewrite /hasher\.update\((\w+)\.as_bytes\(\)\);/ => /hasher.update_str(\1);/
     //@ rewrite /hasher\.finalize\(\)\.to_vec\(\)/ => /hasher.finalize_to_vec()/
     //@ spec ensures ret == manifest_hash(self.signable_manifest.data@)
     //@ loop 0 invariant 0 <= it.index@ <= self.signable_manifest.data@.len(), fed(&hasher) == preimage(self.signable_manifest.data@, it.index@ as int),
